@@ -19,7 +19,7 @@ Once == /\ ~done /\ iv = "once"
 
 LoopStep == /\ ~done /\ iv # "once"
             /\ ~(end < s \/ (last > 0 /\ counter >= last))
-            /\ LET st == Max(s, UnitStart(end, iv)) IN
+            /\ LET st == Max2(s, UnitStart(end, iv)) IN
                  /\ acc' = << [s |-> st, e |-> end] >> \o acc
                  /\ end' = st - 1
             /\ counter' = counter + 1
@@ -34,7 +34,7 @@ Next == Once \/ LoopStep \/ LoopExit
 Spec == Init /\ [][Next]_vars /\ WF_vars(Next)
 
 PartitionOK == done => IsPartition(acc, s, e, iv, last)
-AlignOK == done => \A d \in (Min(s, e) - 8)..(Max(s, e) + 8) : AlignCode(acc, d) = AlignSpec(acc, d)
+AlignOK == done => \A d \in (Min2(s, e) - 8)..(Max2(s, e) + 8) : AlignCode(acc, d) = AlignSpec(acc, d)
 CoverOK == (done /\ last <= 0 /\ iv # "once") => Covered(acc) = s..e
 RecursiveAgrees == done => acc = Partition(s, e, iv, last)
 CivilRoundTrip == LET c == Civil(s) IN DaysFromCivil(c.y, c.m, c.d) = s
